@@ -46,6 +46,9 @@ def c05_matrix(ctx):
         dict(dev="bar", k=50, steps=7, adaptive=True, dt=2.0 ** -6, dt_max=0.1, probes=2, current=3.0, field=0.0),
         dict(dev="bar", k=5, steps=15, adaptive=True, dt=0.25, dt_max=2.0, probes=2, current=20.0, field=1.0, window=2,
              retries=True),
+        # history: second solve() on the same TDGLSolver object (fixed and adaptive step)
+        dict(dev="bar", k=3, steps=8, adaptive=False, dt=2.0 ** -6, probes=2, current=2.0, field=0.2, second_solve=True),
+        dict(dev="bar", k=2, steps=7, adaptive=True, dt=2.0 ** -6, dt_max=0.1, probes=3, current=3.0, field=0.3, skip=3, second_solve=True),
     ]
     if ctx.quick:
         return base
@@ -265,7 +268,19 @@ def natural_run(tdgl, p, base_tmp=None):
         DH.__enter__, DH.__exit__, DH.save_time_step = w_enter, w_exit, w_save
         TDGLSolver.update = w_update
         try:
-            sol = tdgl.solve(dev, opts, applied_vector_potential=p.get("field", 0.0), terminal_currents=currents)
+            solver = TDGLSolver(dev, opts, applied_vector_potential=p.get("field", 0.0), terminal_currents=currents)
+            if p.get("second_solve"):
+                # history: the observed run is the SECOND solve() on the same solver object; the first one is
+                # discarded (its output lives in its own temporary directory), all observation state is reset
+                solver.solve()
+                events.clear()
+                hashes.clear()
+                for key in ("sim", "thermal"):
+                    recs[key].clear()
+                    cum[key][:] = [0.0]
+                st.update(calls=0, stage="thermal" if skip_time > 0 else "sim", sim_n=0, th_n=0, applied=0)
+                save_cursor["last"] = 0
+            sol = solver.solve()
             result = "none" if sol is None else "solution"
         except KeyboardInterrupt:
             result, exc_name = "raised", "KeyboardInterrupt"
